@@ -10,6 +10,16 @@ from .common import scratch, MachineryError, seed as vseed
 from .simrt import World, ForcedMismatch, build_dcop
 
 
+def spread(insts, per_shape=1, cap=None, offset=0):
+    """a selection that covers the shapes: per_shape instances of each (the generator returns them sorted shape by shape)"""
+    by, pick = {}, []
+    for inst in insts[offset:] + insts[:offset]:
+        if by.setdefault(inst["shape"], 0) < per_shape:
+            by[inst["shape"]] += 1
+            pick.append(inst)
+    return pick[:cap] if cap else pick
+
+
 def with_vrank(inst):
     """rank of every concrete domain value in Python's order (optimal_cost_value breaks ties on the value itself)"""
     _, doms = build_dcop(inst)
@@ -66,6 +76,8 @@ def model_check(module, insts, consts, invariants, edges, workers=4, timeout=900
 
 def counterexample_actions(res):
     """the `act` records along TLC's counterexample"""
+    if getattr(res, "trace_json", None):
+        return [st["act"] for st in res.trace_json[1:] if isinstance(st.get("act"), dict) and st["act"].get("n") != "init"]
     acts = []
     for st in res.trace[1:]:
         if "act" in st:
@@ -165,7 +177,7 @@ def _replay_worker(args):
                 w.rnd.forced.clear()
                 w.run_random(random.Random(pi * 31 + k), max_steps=2000)
                 departed.append({"label": label, "path": [x for x, _ in path[:k + 1]], "then": pi * 31 + k,
-                                 "rec": AT.trace_record(0, w, props, k=consts.get("StopCycle", 0))})
+                                 "rec": AT.trace_record(0, w, props, k=inst.get("stop", consts.get("StopCycle", 0)))})
                 break
         if len(departed) >= 12:
             break
@@ -188,6 +200,7 @@ def instrument(w):
 
 
 def hist_record(b, w, inst, stop, rid, exc=""):
+    stop = inst.get("stop", stop)
     vs = [n for n in w.comps if hasattr(w.comps[n], "current_value")]
     return {"id": rid, "inst": {x: inst[x] for x in ("vars", "dsize", "cons", "varcost", "mode")}, "stop": stop,
             "hist": {n: list(w.hist.get(n, [])) for n in vs}, "idle": {n: max(1, w.vidx(n, w.comps[n].current_value)) for n in vs},
@@ -256,7 +269,7 @@ def explore_real(args):
                 w2.rnd.forced.clear()
                 # the draws of this step as forcible entries, and the alternatives at every draw that was not forced
                 tv = []
-                for (kind, opts), (lk, lv) in zip(w2.rnd.draws_seen, [x for x in w2.rnd.log[nlog:] if x[0] in ("choice", "random", "np_randint")]):
+                for (kind, opts), (lk, lv) in zip(w2.rnd.draws_seen, [x for x in w2.rnd.log[nlog:] if x[0] in ("choice", "random", "np_randint", "uniform")]):
                     val = next((o for o in opts if (o if isinstance(o, (int, float, str, bool)) or o is None else repr(o)) == lv), lv)
                     tv.append(("K", kind, val))
                 tv = tuple(tv)
@@ -344,7 +357,8 @@ def run_model(v, b, insts, consts, invariants, clauses, props, edges_for=lambda 
         if info["violated"] or info["deadlock"]:
             what = info["violated"][0] if info["violated"] else "Deadlock"
             acts = info["acts"]
-            w = b.world(inst, consts, 1)
+            from . import judge as J
+            w = instrument(b.world(inst, consts, 1))
             ok = True
             for a in acts:
                 try:
@@ -352,16 +366,25 @@ def run_model(v, b, insts, consts, invariants, clauses, props, edges_for=lambda 
                 except Exception:    # noqa
                     ok = False
                     break
+            hrs = [hist_record(b, w, inst, consts.get("StopCycle", 0), 0)]
             if ok:
                 w.run_random(random.Random(5), max_steps=2000)
-            verdicts, jres = judge_real([("cex", w)], props, consts.get("StopCycle", 0))
+                hrs.append(hist_record(b, w, inst, consts.get("StopCycle", 0), 1))
+            verdicts, jres = judge_real([("cex", w)], props, inst.get("stop", consts.get("StopCycle", 0)))
             v.add_tlc(jres, "AlgoMon on the real replay of TLC's counterexample to %s" % what)
+            hv, hres = J.judge("Judge_Hist", hrs, workers=1)
+            v.add_tlc(hres, "Judge_Hist on the real replay of TLC's counterexample to %s" % what)
             vd = verdicts.get("cex") or {"bad": []}
-            fails = sorted({x[0] for x in vd["bad"] if x[0] in clauses})
+            fails = {(x[0], x[2]) for x in vd["bad"] if x[0] in clauses}
+            for r in hrs:
+                for cl0 in hv[r["id"]]:
+                    cl, _, ctx = cl0.partition("@")
+                    if cl in clauses:
+                        fails.add((cl, ctx or "solo"))
             if fails:
-                for cl in fails:
+                for cl, ctx in sorted(fails):
                     key = dict(key_base or {}, **(inst.get("_key") or {}))
-                    key.update({"algo": b.algo, "mode": inst["mode"], "clause": cl, "shape": inst.get("shape", "?"), "via": "model_invariant"})
+                    key.update({"algo": b.algo, "mode": inst["mode"], "clause": cl, "shape": inst.get("shape", "?"), "via": "model_invariant", "cycle": ctx})
                     v.violation(key, "%s: TLC violates %s of %s on %s; the counterexample replayed on the real computations fails %s" % (
                         cl, what, b.module, label, cl), {"inst": inst, "params": b.params(consts, inst), "model_path": acts})
             elif any(x[0] not in clauses for x in vd["bad"]) or what in ("NoNestedFlush", "AtMostOnePostponed", "NeighbourSkew"):
@@ -392,8 +415,8 @@ def run_model(v, b, insts, consts, invariants, clauses, props, edges_for=lambda 
             seen_inst.setdefault(json.dumps(d["inst"], sort_keys=True), d["inst"])
         extra = []
         for ii, inst in enumerate(list(seen_inst.values())[:6]):
-            for sc in (consts.get("StopCycle", 3), 2 * consts.get("StopCycle", 3) + 2):
-                params = dict(b.params(consts, inst), stop_cycle=sc)
+            for sc in (inst.get("stop", consts.get("StopCycle", 3)), 2 * inst.get("stop", consts.get("StopCycle", 3)) + 2):
+                params = dict(b.params(consts, dict(inst, stop=sc)), stop_cycle=sc)
                 for si in range(intensify):
                     w = AT.run_one(inst, b.algo, params, 7000 + ii * 1000 + si, policy=AT.POLICIES[si % 4], max_steps=4000)
                     extra.append({"label": "intensified", "path": [], "then": 7000 + ii * 1000 + si, "inst": inst, "params": params,
@@ -427,9 +450,13 @@ def run_model(v, b, insts, consts, invariants, clauses, props, edges_for=lambda 
             v.add_tlc(hres, "Judge_Hist on %d distinct histories reached by the real computations on the instances that left %s" % (len(hrecs), b.module))
             for r in hrecs:
                 inst = r["_inst"]
-                for cl in sorted(set(hv[r["id"]]) & set(clauses)):
+                for cl0 in sorted(hv[r["id"]]):
+                    cl, _, ctx = cl0.partition("@")
+                    if cl not in clauses:
+                        continue
                     key = dict(key_base or {}, **(inst.get("_key") or {}))
-                    key.update({"algo": b.algo, "mode": inst["mode"], "clause": cl, "shape": inst.get("shape", "?"), "via": "real_graph_exploration"})
+                    key.update({"algo": b.algo, "mode": inst["mode"], "clause": cl, "shape": inst.get("shape", "?"), "via": "real_graph_exploration",
+                                "cycle": ctx or "solo"})
                     v.violation(key, "%s on %s/%s: reached by the real computations (exhaustive exploration of the instance after they left %s): history %s" % (
                         cl, b.algo, inst.get("shape", "?"), b.module, json.dumps(r["hist"])),
                         {"inst": inst, "params": b.params(r["_consts"], inst), "history": r["hist"], "state": {k: r[k] for k in ("val", "cyc", "fin", "quiet", "exc")}})
@@ -443,9 +470,9 @@ def run_model(v, b, insts, consts, invariants, clauses, props, edges_for=lambda 
             if not vd:
                 continue
             inst = d["inst"]
-            for cl in sorted({x[0] for x in vd["bad"] if x[0] in clauses}):
+            for cl, ctx in sorted({(x[0], x[2]) for x in vd["bad"] if x[0] in clauses}):
                 key = dict(key_base or {}, **(inst.get("_key") or {}))
-                key.update({"algo": b.algo, "mode": inst["mode"], "clause": cl, "shape": inst.get("shape", "?"), "via": "model_replay"})
+                key.update({"algo": b.algo, "mode": inst["mode"], "clause": cl, "shape": inst.get("shape", "?"), "via": "model_replay", "cycle": ctx})
                 v.violation(key, "%s on %s/%s: the real computations leave %s and the real execution fails %s (prefix of %d model steps, then a seeded run)" % (
                     cl, b.algo, inst.get("shape", "?"), b.module, cl, len(d["path"])),
                     {"inst": inst, "params": d.get("params") or b.params(consts, inst), "model_path": d["path"], "policy": d.get("policy"),
